@@ -22,8 +22,10 @@ def sh(cmd, cwd=None, env=None, timeout=1800):
 
 
 def main():
-    wt, cdir, sid = sys.argv[1:4]
-    props = sys.argv[4:]
+    argv = [a for a in sys.argv[1:] if a != '--confirm-only']
+    confirm_only = '--confirm-only' in sys.argv      # the checks are then run by tools/reseed.py on a scratch copy
+    wt, cdir, sid = argv[0:3]
+    props = argv[3:]
     meta = json.load(open(os.path.join(cdir, 'meta.json')))
     props = props or [meta['property']]
     patch = os.path.abspath(os.path.join(cdir, 'patch.diff'))
@@ -44,7 +46,7 @@ def main():
     confirmed = tests_ok and rc_demo_with != 0 and rc_demo_without == 0
     print(f"[{sid}] confirmed={confirmed} tests_ok={tests_ok} demo_with={rc_demo_with} demo_without={rc_demo_without}")
     verdicts = {}
-    if confirmed:
+    if confirmed and not confirm_only:
         rc, out = sh(f"git -C /repo apply {patch}")
         assert rc == 0, out
         try:
